@@ -1042,6 +1042,11 @@ class DataType(object):
                     raise EDXMLEventValidationError(
                         "Invalid value string for data type %s: '%s'. " % (self.type, value)
                     )
+                if not re.match(r'^[+-]?[0-9]*\.?[0-9]*$', value):
+                    # Not plain decimal notation, like scientific notation or grouped digits.
+                    raise EDXMLEventValidationError(
+                        "Invalid value string for data type %s: '%s'. " % (self.type, value)
+                    )
                 try:
                     [integral, fractional] = value.split('.')
                 except ValueError:
@@ -1092,6 +1097,11 @@ class DataType(object):
                 try:
                     Decimal(value)
                 except decimal.InvalidOperation:
+                    raise EDXMLEventValidationError(
+                        "Invalid value string for data type %s: '%s'. " % (self.type, value)
+                    )
+                if not re.match(r'^[+-]?[0-9]*\.?[0-9]*$', value):
+                    # Not plain decimal notation, like scientific notation or grouped digits.
                     raise EDXMLEventValidationError(
                         "Invalid value string for data type %s: '%s'. " % (self.type, value)
                     )
